@@ -21,7 +21,7 @@ def units(tier):
 def strategy(tier, unit):
     e = st.one_of(S.fl(-0.1, 0.1), S.fl(-0.1, 0.1), st.sampled_from([0.0, 0.1, -0.1]), S.fl(-1e-4, 1e-4))
     return st.fixed_dictionaries({"cell": S.cells(), "eps": st.lists(e, min_size=6, max_size=6), "rot": S.rot_specs(1),
-                                  "mod": st.sampled_from(["tools", "laue"])})
+                                  "mod": st.sampled_from(["tools", "laue"]), "as_array": st.booleans()})
 
 
 def _sym6(E):
@@ -40,12 +40,22 @@ def check(case, ctx):
     ctx.event("zero-strain" if not np.any(eps) else "strained")
     B0 = np.asarray(mod.form_b_mat(cell), float)
     sc = O.maxabs(B0)
-    B = np.asarray(mod.epsilon_to_b(eps.tolist(), cell), float)
+    # the strain is handed over the way a caller holds it: a list or (half of the cases) one float ndarray that is
+    # reused for every call below; no function may change its arguments
+    eps_arg = eps.copy() if case.get("as_array", True) else eps.tolist()
+    B = np.asarray(mod.epsilon_to_b(eps_arg, cell), float)
+    if O.maxabs(np.asarray(eps_arg, float) - eps) > 0:
+        ctx.fail("argument-mutated/epsilon_to_b", "%s.epsilon_to_b changed the caller's strain %r -> %r" % (m, eps.tolist(), list(eps_arg)))
+        eps_arg = eps.copy()
     if B.shape != (3, 3):
         ctx.fail("shape/epsilon_to_b", "shape %r" % (B.shape,))
         return
     ctx.near("B upper triangular", O.maxabs(np.tril(B, -1)) / sc, 1e-12, "epsilon_to_b/not-upper-triangular", "%s.epsilon_to_b result not upper triangular" % m)
+    Bkeep = B.copy()
     e1 = np.asarray(mod.b_to_epsilon(B, cell), float)
+    if O.maxabs(B - Bkeep) > 0:
+        ctx.fail("argument-mutated/b_to_epsilon", "%s.b_to_epsilon changed the caller's B matrix" % m)
+        B = Bkeep
     ctx.near("b_to_epsilon(epsilon_to_b(e))=e", O.maxabs(e1 - eps), TOL, "roundtrip/eps-B-eps", "%s: b_to_epsilon(epsilon_to_b(%r)) = %r" % (m, eps.tolist(), e1.tolist()))
     T = B0 @ np.linalg.inv(B)
     Edef = _sym6(0.5 * (T + T.T) - np.eye(3))
@@ -58,7 +68,13 @@ def check(case, ctx):
     B2 = np.asarray(mod.epsilon_to_b(es, cell), float)
     ctx.near("epsilon_to_b(b_to_epsilon(B))=B", O.maxabs(B2 - Bs) / sc, 1e-8, "roundtrip/B-eps-B", "%s: epsilon_to_b(b_to_epsilon(B)) != B" % m)
     # _old pair
-    Bo = np.asarray(mod.epsilon_to_b_old(eps.tolist(), cell), float)
+    Bo = np.asarray(mod.epsilon_to_b_old(eps_arg, cell), float)
+    if O.maxabs(np.asarray(eps_arg, float) - eps) > 0:
+        ctx.fail("argument-mutated/epsilon_to_b_old", "%s.epsilon_to_b_old changed the caller's strain" % m)
+        eps_arg = eps.copy()
+    # second call with the same (unchanged) object must give the same matrix
+    B_again = np.asarray(mod.epsilon_to_b(eps_arg, cell), float)
+    ctx.near("epsilon_to_b repeatable", O.maxabs(B_again - Bkeep) / sc, 0.0, "not-repeatable/epsilon_to_b", "%s.epsilon_to_b gives a different B on the second call with the same strain object" % m)
     eo = np.asarray(mod.b_to_epsilon_old(Bo, cell), float)
     ctx.near("old: eps->B->eps", O.maxabs(eo - eps), 1e-8, "roundtrip-old/eps-B-eps", "%s: b_to_epsilon_old(epsilon_to_b_old(e)) = %r != %r" % (m, eo.tolist(), eps.tolist()))
     ctx.near("old: B upper triangular", O.maxabs(np.tril(Bo, -1)) / sc, 1e-12, "epsilon_to_b_old/not-upper-triangular", "%s" % m)
@@ -70,7 +86,11 @@ def check(case, ctx):
     # cross-check the convention against u_to_ubi itself on the strained cell
     ubi_lib = np.asarray(mod.u_to_ubi(U, scell), float)
     ctx.near("ubi convention", O.maxabs(ubi_lib @ U @ Bs - f * np.eye(3)), 1e-8, "u_to_ubi/convention", "%s.u_to_ubi(U,cell).U.B != f.I" % m)
+    ubi_keep = ubi.copy()
     U2, e2 = mod.ubi_to_u_and_eps(ubi, cell)
+    if O.maxabs(ubi - ubi_keep) > 0:
+        ctx.fail("argument-mutated/ubi_to_u_and_eps", "%s.ubi_to_u_and_eps changed the caller's UBI" % m)
+        ubi = ubi_keep
     U2, e2 = np.asarray(U2, float), np.asarray(e2, float)
     ctx.near("ubi_to_u_and_eps/U", O.maxabs(U2 - U), 1e-8, "ubi_to_u_and_eps/U", "%s.ubi_to_u_and_eps U differs by %g" % (m, O.maxabs(U2 - U)))
     dev = O.maxabs(e2 - eps)
